@@ -54,6 +54,9 @@ pub struct NetCase {
     pub addr_form: u8,
     pub nonblocking: bool,
     pub queuing: bool,
+    /// capacity of the queuing wrapper (None = unbounded)
+    #[serde(default)]
+    pub queue_cap: Option<usize>,
     pub via_client: bool,
     pub max_datagram: Option<usize>,
     pub tasks: Vec<Vec<NOp>>,
@@ -254,7 +257,10 @@ fn sim_main(case: NetCase) -> Obs {
         ($sink:expr) => {{
             let sink = $sink;
             if case.queuing {
-                let q = QueuingMetricSink::from(sink);
+                let q = match case.queue_cap {
+                    Some(c) => QueuingMetricSink::with_capacity(sink, c),
+                    None => QueuingMetricSink::from(sink),
+                };
                 if case.via_client {
                     let a = Arc::new(q.clone());
                     client = Some(Arc::new(StatsdClient::from_sink("", q)));
@@ -455,7 +461,7 @@ impl Engine for E5 {
         match focus {
             "C12" => &["lock_contended", "interleaved_batches", "concurrent_flush", "stream_through_queuing"],
             "C13" => &["wide_utf8", "whitespace_edged", "max_size_datagram", "emsgsize", "nonblocking_eagain", "send_error_returned"],
-            "C14" => &["concurrent_stats_updates", "stats_through_queuing", "dropped_counted", "stats_checked"],
+            "C14" => &["concurrent_stats_updates", "stats_through_queuing", "stats_through_bounded_queue_with_refusals", "dropped_counted", "stats_checked"],
             _ => &[],
         }
     }
@@ -582,7 +588,8 @@ impl Engine for E5 {
         if queuing {
             sched = SchedSpec::generate(&mut sch, &[35, 20, 25, 10, 10]);
         }
-        NetCase { sched, sink, cap, addr_form: cfg.below(4) as u8, nonblocking, queuing, via_client, max_datagram, tasks, plan }
+        let queue_cap = if queuing && cfg.chance(1, 2) { Some(*cfg.pick(&[1usize, 2, 4])) } else { None };
+        NetCase { sched, sink, cap, addr_form: cfg.below(4) as u8, nonblocking, queuing, queue_cap, via_client, max_datagram, tasks, plan }
     }
 
     fn pin_schedule(case: &NetCase, o: &Outcome) -> NetCase {
@@ -662,6 +669,12 @@ impl Engine for E5 {
         if case.queuing {
             let mut c = case.clone();
             c.queuing = false;
+            c.queue_cap = None;
+            v.push(c);
+        }
+        if case.queue_cap.is_some() {
+            let mut c = case.clone();
+            c.queue_cap = None;
             v.push(c);
         }
         for t in 0..case.tasks.len() {
@@ -977,6 +990,9 @@ fn judge(case: &NetCase, obs: &Obs, end_tasks: &[TaskInfo], out: &mut Outcome, w
             out.probe("stats_checked");
             if case.queuing {
                 out.probe("stats_through_queuing");
+                if case.queue_cap.is_some() && emits.iter().any(|e| matches!(e.res, Res::Err(_))) {
+                    out.probe("stats_through_bounded_queue_with_refusals");
+                }
             }
             let led = &obs.ledger[..s.ledger_len.min(obs.ledger.len())];
             let n_ok = led.iter().filter(|r| r.result.is_ok()).count() as u64;
